@@ -5,12 +5,12 @@
 # (renamed receivers, parameters, loop counters and locals that the contracts DO name) to a scratch worktree
 # of /repo's HEAD and runs the quick checks of the properties whose functions were edited. Every check must
 # exit 0 without a VIOLATION line.
-# usage: harmless.sh [property ...]   (default: C01 C02 C04 C06 C10 C11 C12 C14 C19 C20)
+# usage: harmless.sh [property ...]   (default: C01 C02 C04 C06 C08 C09 C10 C11 C12 C14 C19 C20)
 cd /verif || exit 2
 wt=/tmp/harmless_repo
 git -C /repo worktree remove --force $wt 2>/dev/null; rm -rf $wt
 git -C /repo worktree add -q --detach $wt HEAD || exit 2
-props="$@"; [ -z "$props" ] && props="C01 C02 C04 C06 C10 C11 C12 C14 C19 C20"
+props="$@"; [ -z "$props" ] && props="C01 C02 C04 C06 C08 C09 C10 C11 C12 C14 C19 C20"
 bad=0
 for patch in patch.diff renames.diff; do
 git -C $wt checkout -q -- .
